@@ -66,7 +66,7 @@ EVIDENCE = {
         "exceptions of documented classes raised by reads or writes are recorded, not judged (C01/C03 judge them)",
     ],
     "components": {
-        "real": "optuna Study/Trial/FrozenTrial, RandomSampler, all storages incl. gRPC client cache and servicer, SQLAlchemy, sqlite3, protobuf, json, stdlib copy",
+        "real": "optuna Study/Trial/FrozenTrial, RandomSampler / TPESampler / NSGAIISampler with a constraints function, all storages incl. gRPC client cache and servicer, SQLAlchemy, sqlite3, protobuf, json, stdlib copy",
         "stub": "OS scheduler, threading locks, clocks, uuid, journal file system (SimFS), Redis (SimRedis), gRPC transport and server pool (SimNet)",
     },
 }
@@ -393,6 +393,9 @@ def gen_plan(seed: int, run: int, tier: str) -> dict:
         "nobj": nobj,
         "directions": [rng.choice(["minimize", "maximize"]) for _ in range(nobj)],
         "sampler_seed": rng.randrange(1 << 30),
+        # a sampler with a constraints function: finishing a trial then also records the
+        # constraint values (a system attribute written by the sampler's after_trial)
+        "constrained": rng.choice([None, None, "tpe", "nsgaii"]),
         "p_line": rng.choice([0.01, 0.03, 0.1]) if mode == "threads" else 0.0,
         "p_seam": rng.choice([0.1, 0.3, 0.6]),
         "pool": rng.choice([1, 2, 3]),
@@ -581,6 +584,21 @@ def _tolerated() -> tuple:
     from optuna.exceptions import DuplicatedStudyError, StorageInternalError, UpdateFinishedTrialError
 
     return (KeyError, ValueError, RuntimeError, UpdateFinishedTrialError, DuplicatedStudyError, StorageInternalError, grpc.RpcError)
+
+
+def _constraints(trial: Any) -> tuple:
+    return (1.0,) if trial.number % 2 else (-1.0, 0.0)[:1]
+
+
+def _make_sampler(cfg: dict) -> Any:
+    import optuna
+
+    k = cfg.get("constrained")
+    if k == "tpe":
+        return optuna.samplers.TPESampler(seed=cfg["sampler_seed"] % (1 << 30), constraints_func=_constraints)
+    if k == "nsgaii":
+        return optuna.samplers.NSGAIISampler(seed=cfg["sampler_seed"] % (1 << 30), constraints_func=_constraints, population_size=4)
+    return optuna.samplers.RandomSampler(seed=cfg["sampler_seed"])
 
 
 class _Run:
@@ -1056,7 +1074,7 @@ class _Run:
             storage=self.st,
             study_name="c20",
             directions=list(cfg["directions"]),
-            sampler=optuna.samplers.RandomSampler(seed=cfg["sampler_seed"]),
+            sampler=_make_sampler(cfg),
         )
         self.sid = self.study._study_id
         if hasattr(self.st, "remove_session"):
